@@ -224,10 +224,13 @@ CLAIMS = {
          "prediction), plus Rust's own str::parse / to_string / wrapping_* against the model. An independent oracle evaluates every emitted operator "
          "on all 8-bit operand pairs (boundary+random pairs for wider types) against the source meaning, with Go's constant-expression rules.",
     design_ref="§5 C10",
-    note="Floats are validated, not proved: literal -> Core bits against an independent correctly-rounded decimal->binary conversion and Rust's parse, "
+    note="Go constant expressions over float literals (Model/GoConst.lean): float_const_faithful_if_exact_operands (abstract rounding), concrete "
+         "counter-examples by decide, Gen/FloatPrint table theorem; the real printed Go of 1400+ literal-operand programs is evaluated with Go's constant "
+         "rules against the source meaning. Floats are otherwise validated, not proved: literal -> Core bits against an independent correctly-rounded decimal->binary conversion and Rust's parse, "
          "printed Go literal read back, operator symbol and operand Go types; float32 'rounds every operation to single precision' rests on Go. "
          "Trusted: Lean kernel; the reading of the Go specification in goBinInt/goConstBin/goIntToken; tools/extract.py regexes; harness program templates. "
-         "Known findings: operators on all-literal operands become Go constant expressions (overflow / zero divisor rejected by the Go compiler).",
+         "Known findings: operators on all-literal operands become Go constant expressions (integers: overflow / zero divisor rejected by the Go compiler; "
+         "floats: value differs from the IEEE operation at float64 and on float32 ties, -0.0 is +0, constant zero divisor / overflow rejected).",
     technique="Lean 4 proof (induction over digit strings; BitVec/Int lemmas; decide over regenerated tables) + translator + differential correspondence + spec oracle"),
  "C11": dict(
     category="proof",
@@ -343,7 +346,7 @@ CLAIMS = {
          "rowan and the observable behaviour of the queries on every tie position. SEARCHED, not proved: that hover_type / dot_completions / "
          "colon_colon_completions and the wasm-app wrappers return normally (catch_unwind + 5 s watchdog) on every prefix (token boundaries and "
          "mid-token) and token-level mutation of corpus, seed, generated and token-soup programs x every (line, col) incl. positions outside the "
-         "text; that hover at every TAST identifier of an accepted program equals the TAST type (all pipeline corpus programs in the quick tier, plus the `late:*` family: every type constructor around an element whose type is resolved late); that every offered completion, inserted, does not "
+         "text; that hover at every TAST identifier of an accepted program equals the TAST type (all pipeline corpus programs in the quick tier, plus the `late:*` family: every type constructor around an element whose type is resolved late); that a text and its line-ending twins (CRLF, mixed, blank lines, lone CR, no final newline, tabs, multi-byte text before the cursor) get identical hover/dot/`::` answers at corresponding positions; that every offered completion, inserted, does not "
          "draw the diagnostic a non-existent name draws.",
     design_ref="§5 C20, §C20 — as built",
     note="Trusted: Lean kernel; extract_query_glue (regex over query.rs); harness/src/c20.rs + crash.rs; line-index and rowan behave as modelled "
@@ -413,10 +416,15 @@ CLAIMS = {
          "reproduced by the ANF program, for every sufficiently large fuel, under either go schedule. Links: a NEW lock-step simulation of mono "
          "under the full Sem (closures, renamed instances and type instances; Lemmas/PipeMonoSim.lean), lift_preserves_partial (C08), "
          "anf_run_preserves_partial (C09). pipeline_preserves_partial: the same from the Mono program on, for programs with ETraitCall (whose "
-         "Core->Mono link needs type soundness). end_to_end_partial continues to Go.Sem of the emitted file with go/compile.rs (CompileSim) and "
-         "the file-level lifting of dce_preserves (DceFileSim) as explicit hypotheses (parameters, not axioms). Tie: the composite model on the "
-         "REAL Core dump equals the REAL Mono, Lift and ANF dumps for every corpus and generated program; the evidence reports how many real "
-         "programs lie inside each fragment and why the others do not.",
+         "Core->Mono link needs type soundness). END TO END (second stage): core_to_emitted_go_preserves - for every Core program in the decidable "
+         "InEmitFragment, every definite Sem run of main is the Go.Sem outcome of the EMITTED Go file (whole model pipeline: mono, lift, anf, "
+         "re-annotation, go_file incl. eliminate_dead_vars), with NO hypothesis besides the fragment: the go/compile.rs link is "
+         "GoCompile.compile_preserves_run, the DCE link is the new Dce.dce_file_preserves (file-level lifting of dce_preserves via a Go.Sem file "
+         "congruence and a lock-step pruning theorem; Go.Sem.zero made total, callG given Go's arity rule). core_to_go_preserves is the same "
+         "up to the file before DCE. Tie: the composite model on the "
+         "REAL Core dump equals the REAL Mono, Lift and ANF dumps for every corpus and generated program; the whole-pipeline model on the REAL Core dump + REAL GlobalGoEnv dump equals the REAL emitted "
+         "Go AST; the evidence reports how many real programs lie inside each fragment (InPipeFragment, InLiftAnfFragment, InE2EFragment, "
+         "InEmitFragment) and why the others do not.",
     design_ref="§5 C01",
     note="Trusted: Sem/Go.Sem as definitions (Go.Sem reproduces all recorded corpus outputs), harness IR serialisers, the generator's coverage. "
          "The Go back end has its own model (Model/GoCompile.lean, exact tie `gv gocomp` on every run) and, for the stage-(a) fragment, a proved "
